@@ -5,12 +5,13 @@ the smallest eigenvalue of `S_o`, the search window found with `searchsorted`, t
 weights restricted to the window, mean / variance, the x-sorted view restricted to the
 window, the cdf and the interpolated quantiles, and the NaN branches.  Core Lean only.
 
-Python (after the three `fix:` commits eb2814b, 388f0ec, 1798c6b):
+Python (after the four `fix:` commits eb2814b, 388f0ec, 1798c6b, 7dcb5e2):
 
     __init__:   pc1_proj = dot(y - y_mean, pc1);  indices = argsort(pc1_proj)
                 pc1_proj, x, y = pc1_proj[indices], x[indices], y[indices]
                 x_sorted_inds = argsort(x)
-    __find_hits:  s_l = y_proj - sqrt(2 x2_max / pc1_e);  s_u = y_proj + sqrt(...)
+    __find_hits:  tol = 4 m eps sum|pc1 * dy|                    (rounding allowance, >= 0)
+                  s_l = y_proj - sqrt(2 x2_max / pc1_e) - tol;  s_u = y_proj + sqrt(...) + tol
                   i_l = searchsorted(pc1_proj, s_l, "left")
                   i_u = searchsorted(pc1_proj, s_u, "right")
     weights:    x2_max < 0 -> (0, n, gauss(y));  else (i_l, i_u, gauss(y[i_l:i_u]))
